@@ -508,3 +508,127 @@ func runPartNamesMatchTheSweep(c *Ctx, rule string) {
 		c.R.OK(rule, key, c.P.Pos(fn.Pos()), "part names are always <configured name>_<i>")
 	}
 }
+
+// ---- round 9 (half round: ten properties) -------------------------------------------------------------------------
+
+// runLoginGovVerifyNilOnlyParsed (C04.R14): login.gov's checkNonce — that provider's only verification of the ID token
+// (signature, expiry, not-before through golang-jwt) — answers nil only on paths where jwt.ParseWithClaims returned a nil
+// error. golang-jwt wraps EVERY registered-claim failure (expired, not yet valid) in ErrTokenInvalidClaims; tolerating
+// that sentinel "for clock skew" accepts expired tokens.
+func runLoginGovVerifyNilOnlyParsed(c *Ctx, rule string) {
+	fn := c.Fn(rule, "providers.checkNonce")
+	if fn == nil {
+		return
+	}
+	key := "nil-only-parsed|" + fnKey(fn)
+	n, bad := 0, false
+	c.Walk(rule, fn, func(p *walk.Path) {
+		ev, ok := p.ReturnDV(0)
+		if !ok {
+			return
+		}
+		if isNil, known := p.Nil(ev, p.End()); known && !isNil {
+			return
+		}
+		n++
+		parsed := false
+		for _, cl := range p.Calls() {
+			if sc := cl.C.StaticCallee(); sc != nil && sc.Name() == "ParseWithClaims" {
+				if isNil, known := p.ResultNil(cl.DV(), 1, p.End()); known && isNil {
+					parsed = true
+				}
+			}
+		}
+		if !parsed && !bad {
+			bad = true
+			c.bad(rule, key, p.Exit, "login.gov's checkNonce can answer nil although jwt.ParseWithClaims did not return a nil error (an error class is tolerated): an expired or not-yet-valid ID token is accepted at the callback", p, p.End())
+		}
+	})
+	switch {
+	case n == 0:
+		c.R.Unknown(rule, key, c.P.Pos(fn.Pos()), "checkNonce has no nil return")
+	case !bad:
+		c.R.OK(rule, key, c.P.Pos(fn.Pos()), "nil only after ParseWithClaims returned no error (and the nonce matched)")
+	}
+}
+
+// runHtpasswdRecordStoredOrReported (C20.R10): passShaOrBcrypt — called once per record of the file — either stores the
+// record in the map being built or reports it as invalid; no record is dropped silently. createHtpasswdMap turns any
+// reported record into a parse failure, which is what keeps the previous contents in force for a file cut off in the
+// middle of a record ("user:" with the hash still unwritten).
+func runHtpasswdRecordStoredOrReported(c *Ctx, rule string) {
+	fn := c.Fn(rule, "pkg/authentication/basic.passShaOrBcrypt")
+	if fn == nil {
+		return
+	}
+	key := "stored-or-reported|" + fnKey(fn)
+	n, bad := 0, false
+	c.Walk(rule, fn, func(p *walk.Path) {
+		if _, ok := p.Exit.(*ssa.Return); !ok {
+			return
+		}
+		n++
+		stored, reported := false, false
+		for _, s := range p.Steps {
+			switch x := s.In.(type) {
+			case *ssa.MapUpdate:
+				stored = true
+			case *ssa.Call:
+				if b, ok := x.Call.Value.(*ssa.Builtin); ok && b.Name() == "append" {
+					reported = true
+				}
+			}
+		}
+		if !stored && !reported && !bad {
+			bad = true
+			c.bad(rule, key, p.Exit, "a record of the htpasswd file can be neither stored nor reported as invalid: a file cut off inside a record then parses as a success and replaces the previous contents, dropping that user until the next reload", p, p.End())
+		}
+	})
+	switch {
+	case n == 0:
+		c.R.Unknown(rule, key, c.P.Pos(fn.Pos()), "passShaOrBcrypt has no return")
+	case !bad:
+		c.R.OK(rule, key, c.P.Pos(fn.Pos()), "every path stores the record or appends it to the invalid entries")
+	}
+}
+
+// runEmailDomainsVerbatim (C08.R13): the operator's email_domains are rewritten by nobody between option loading and the
+// validator built from them; the validator's own constructor (newValidatorImpl) lower-cases its input in place, which is
+// the consumer normalising what it was handed.
+func runEmailDomainsVerbatim(c *Ctx, rule string) {
+	f := c.Field(rule, "pkg/apis/options.Options.EmailDomains")
+	if f == nil {
+		return
+	}
+	n, bad := 0, false
+	for _, fn := range c.P.ModFns {
+		if strings.HasPrefix(prog.Short(prog.FnPkg(fn).Path()), "pkg/apis/options") {
+			continue
+		}
+		for _, b := range fn.Blocks {
+			for _, in := range b.Instrs {
+				ld, ok := in.(*ssa.UnOp)
+				if !ok || !walk.IsFieldLoad(ld, f) {
+					continue
+				}
+				n++
+				if why := mutatesSlice(c, ld, 0); why != "" && !strings.Contains(why, "main.newValidatorImpl") {
+					bad = true
+					c.bad(rule, "mutated|EmailDomains|"+fnKey(fn), in, "the operator's email_domains list is "+why+" before the validator is built from it: '.example.com' (sub-domains only) trimmed to 'example.com' admits other addresses than the rule that was configured", nil, 0)
+				}
+			}
+		}
+	}
+	for _, ref := range c.fieldRefs(f) {
+		if ref.Kind == "store" && !strings.HasPrefix(prog.Short(prog.FnPkg(ref.Fn).Path()), "pkg/apis/options") {
+			bad = true
+			c.bad(rule, "field-store|EmailDomains|"+fnKey(ref.Fn), ref.In, "Options.EmailDomains is reassigned outside option loading", nil, 0)
+		}
+	}
+	switch {
+	case n == 0:
+		c.R.Unknown(rule, "readers|EmailDomains", "-", "no reader of Options.EmailDomains found")
+	case !bad:
+		c.R.OK(rule, "read-only|EmailDomains", "-", sprintf("%d load(s) of Options.EmailDomains outside option loading; only the validator's own constructor normalises its copy", n))
+	}
+}
